@@ -193,3 +193,23 @@ pub fn history_len(bytes: &[u8]) -> usize {
         }
     }
 }
+
+
+// ------------------------------------------------------------------------- noise headers
+// Request headers that look as if they could matter to a server but are no input to any
+// decision the statements describe: adding them to a request must change nothing.
+
+pub const NOISE_HEADERS: [&[&str]; 8] = [
+    &[],
+    &["Proxy-Connection: keep-alive"],
+    &["Proxy-Connection: close"],
+    &["Keep-Alive: timeout=5, max=100"],
+    &["Upgrade: h2c"],
+    &["X-Connection: close", "Connection-Hint: keep-alive", "Pragma: no-cache"],
+    &["Content-Encoding: chunked", "Accept-Encoding: chunked, identity;q=0", "Trailer: Expires"],
+    &["Content-Type: multipart/form-data; boundary=x", "Range: bytes=0-", "If-Match: *", "Via: 1.0 p", "X-Forwarded-For: 10.0.0.1"],
+];
+
+pub fn noise_lines(k: usize) -> String {
+    NOISE_HEADERS[k % NOISE_HEADERS.len()].iter().map(|l| format!("{}\r\n", l)).collect()
+}
